@@ -2,11 +2,15 @@ package validation
 
 import (
 	"context"
+	"errors"
 	"unicode/utf8"
+
+	"google.golang.org/protobuf/types/known/structpb"
 
 	openfgav1 "github.com/openfga/api/proto/openfga/v1"
 
 	"github.com/openfga/openfga/internal/condition"
+	"github.com/openfga/openfga/internal/condition/types"
 	"github.com/openfga/openfga/internal/vt"
 	"github.com/openfga/openfga/internal/vtmodels"
 	"github.com/openfga/openfga/pkg/typesystem"
@@ -39,9 +43,27 @@ func verifK18Model() *openfgav1.AuthorizationModel {
 	return vtmodels.Model(name)
 }
 
+// VerifK18TypeSystem builds the typesystem of a model with the real constructor (exported for the
+// write-command harness in pkg/server/commands).
+func VerifK18TypeSystem(m *openfgav1.AuthorizationModel) *typesystem.TypeSystem {
+	VerifK18StubCEL()
+	ts, err := typesystem.NewAndValidate(context.Background(), m)
+	vt.Assert(err == nil, "family model rejected by NewAndValidate")
+	return ts
+}
+
+// VerifK18StubCEL: CEL compilation of the condition expressions is outside (library code that the engine
+// cannot interpret); natively it runs for real.
+func VerifK18StubCEL() {
+	if vt.Symbolic() {
+		vt.Stub("(*github.com/openfga/openfga/internal/condition.EvaluableCondition).Compile",
+			func(e *condition.EvaluableCondition) error { return nil })
+	}
+}
+
 // ---- vocabulary (concrete, deterministic order) ----
 
-type verifK18Voc struct{ types, rels, ids, conds []string }
+type VerifK18Voc struct{ Types, Rels, IDs, Conds, Objs, Users []string }
 
 func verifK18Insert(xs []string, s string) []string {
 	for _, x := range xs {
@@ -56,34 +78,58 @@ func verifK18Insert(xs []string, s string) []string {
 	return xs
 }
 
-func verifK18Vocab(m *openfgav1.AuthorizationModel) verifK18Voc {
-	var v verifK18Voc
+func verifK18SortedRels(td *openfgav1.TypeDefinition) []string {
+	var rs []string
+	for r := range td.GetRelations() {
+		rs = verifK18Insert(rs, r)
+	}
+	return rs
+}
+
+// VerifK18Vocab: declared types + an undeclared one, declared relations + an undeclared one, ids 1 / 2 / *,
+// declared conditions + an undeclared one + the empty name; Objs = every type:id, Users = every type:id,
+// every type:id#relation, and the bare ids (`*`, `1`: users without type).
+func VerifK18Vocab(m *openfgav1.AuthorizationModel) VerifK18Voc {
+	var v VerifK18Voc
 	for _, td := range m.GetTypeDefinitions() {
-		v.types = verifK18Insert(v.types, td.GetType())
+		v.Types = verifK18Insert(v.Types, td.GetType())
 		for r := range td.GetRelations() {
-			v.rels = verifK18Insert(v.rels, r)
+			v.Rels = verifK18Insert(v.Rels, r)
 		}
 	}
 	for c := range m.GetConditions() {
-		v.conds = verifK18Insert(v.conds, c)
+		v.Conds = verifK18Insert(v.Conds, c)
 	}
-	v.types = append(v.types, "ghost")  // a type the model does not declare
-	v.rels = append(v.rels, "nosuch")   // a relation no type declares
-	v.conds = append(v.conds, "cX", "") // an undeclared condition name, the empty name
-	v.ids = []string{"1", "*"}
+	v.Types = append(v.Types, "ghost")
+	v.Rels = append(v.Rels, "nosuch")
+	v.Conds = append(v.Conds, "cX", "")
+	v.IDs = []string{"1", "*"}
 	if vt.ParamInt("ids", 2) > 2 {
-		v.ids = []string{"1", "2", "*"}
+		v.IDs = []string{"1", "2", "*"}
 	}
+	for _, ty := range v.Types {
+		for _, id := range v.IDs {
+			v.Objs = append(v.Objs, ty+":"+id)
+		}
+	}
+	v.Users = append(v.Users, v.Objs...)
+	for _, o := range v.Objs {
+		for _, r := range v.Rels {
+			v.Users = append(v.Users, o+"#"+r)
+		}
+	}
+	v.Users = append(v.Users, v.IDs...)
 	return v
 }
 
-// ---- reference: string shapes (from the documented grammar: `type:id`, `type:*`, `type:id#relation`;
-// no spaces, no control characters, one ':' and at most one '#') ----
+// ---- reference: string shapes (documented grammar: `type:id`, `type:*`, `type:id#relation`; exactly one
+// ':' with a non-empty type before it, at most one '#' after it, no spaces, no control characters) ----
 
 type verifK18Scan struct {
 	colons, hashes        int
 	firstColon, firstHash int
 	bad                   bool // space or control character (C0, DEL, C1)
+	stars                 int
 }
 
 func verifK18ScanStr(s string) verifK18Scan {
@@ -103,40 +149,43 @@ func verifK18ScanStr(s string) verifK18Scan {
 				sc.firstHash = i
 			}
 			sc.hashes++
+		case r == '*':
+			sc.stars++
 		}
 		i += sz
 	}
 	return sc
 }
 
-// verifK18Ent is a parsed `type:id` or `type:id#relation`.
-type verifK18Ent struct {
-	ok           bool
-	typ, id, rel string
-	userset      bool
+// VerifK18Ent is a parsed `type:id` or `type:id#relation`.
+type VerifK18Ent struct {
+	OK           bool
+	Typ, ID, Rel string
+	Userset      bool
+	Stars        int
 }
 
-func verifK18Parse(s string) verifK18Ent {
+func VerifK18Parse(s string) VerifK18Ent {
 	sc := verifK18ScanStr(s)
 	if sc.bad || sc.colons != 1 || sc.hashes > 1 || sc.firstColon <= 0 {
-		return verifK18Ent{}
+		return VerifK18Ent{}
 	}
-	e := verifK18Ent{ok: true, typ: s[:sc.firstColon]}
+	e := VerifK18Ent{OK: true, Typ: s[:sc.firstColon], Stars: sc.stars}
 	end := len(s)
 	if sc.hashes == 1 {
 		if sc.firstHash < sc.firstColon {
-			return verifK18Ent{}
+			return VerifK18Ent{}
 		}
 		end = sc.firstHash
-		e.userset = true
-		e.rel = s[sc.firstHash+1:]
-		if e.rel == "" {
-			return verifK18Ent{}
+		e.Userset = true
+		e.Rel = s[sc.firstHash+1:]
+		if e.Rel == "" {
+			return VerifK18Ent{}
 		}
 	}
-	e.id = s[sc.firstColon+1 : end]
-	if e.id == "" {
-		return verifK18Ent{}
+	e.ID = s[sc.firstColon+1 : end]
+	if e.ID == "" {
+		return VerifK18Ent{}
 	}
 	return e
 }
@@ -167,8 +216,8 @@ func verifK18IsTupleset(td *openfgav1.TypeDefinition, rel string) bool {
 		}
 		return false
 	}
-	for _, rw := range td.GetRelations() {
-		if walk(rw) {
+	for _, r := range verifK18SortedRels(td) {
+		if walk(td.GetRelations()[r]) {
 			return true
 		}
 	}
@@ -188,7 +237,7 @@ func verifK18TypeDeclared(m *openfgav1.AuthorizationModel, t string) bool {
 func verifK18RelDeclared(m *openfgav1.AuthorizationModel, t, rel string) bool {
 	found := false
 	for _, td := range m.GetTypeDefinitions() {
-		for r := range td.GetRelations() {
+		for _, r := range verifK18SortedRels(td) {
 			if td.GetType() == t && r == rel {
 				found = true
 			}
@@ -197,10 +246,10 @@ func verifK18RelDeclared(m *openfgav1.AuthorizationModel, t, rel string) bool {
 	return found
 }
 
-// verifK18ModelAllows: the relation exists on the object's type and one of its type restrictions matches
+// VerifK18ModelAllows: the relation exists on the object's type and one of its type restrictions matches
 // the user (object of that type / typed wildcard / userset type#relation) and allows exactly this
 // condition (none, or the declared condition of that name); tupleset relations take concrete objects only.
-func verifK18ModelAllows(m *openfgav1.AuthorizationModel, ot, rel string, u verifK18Ent, hasCond bool, cond string) bool {
+func VerifK18ModelAllows(m *openfgav1.AuthorizationModel, ot, rel string, u VerifK18Ent, hasCond bool, cond string) bool {
 	condDeclared := false
 	for c := range m.GetConditions() {
 		if c == cond {
@@ -212,22 +261,22 @@ func verifK18ModelAllows(m *openfgav1.AuthorizationModel, ot, rel string, u veri
 	}
 	allowed := false
 	for _, td := range m.GetTypeDefinitions() {
-		for r := range td.GetRelations() {
+		for _, r := range verifK18SortedRels(td) {
 			if td.GetType() != ot || r != rel {
 				continue
 			}
-			if verifK18IsTupleset(td, r) && (u.userset || u.id == "*") {
+			if verifK18IsTupleset(td, r) && (u.Userset || u.ID == "*") {
 				continue
 			}
 			for _, ref := range td.GetMetadata().GetRelations()[r].GetDirectlyRelatedUserTypes() {
-				if ref.GetType() != u.typ {
+				if ref.GetType() != u.Typ {
 					continue
 				}
 				var shape bool
 				switch {
-				case u.userset:
-					shape = ref.GetRelation() != "" && ref.GetRelation() == u.rel
-				case u.id == "*":
+				case u.Userset:
+					shape = ref.GetRelation() != "" && ref.GetRelation() == u.Rel
+				case u.ID == "*":
 					shape = ref.GetWildcard() != nil
 				default:
 					shape = ref.GetRelation() == "" && ref.GetWildcard() == nil
@@ -247,134 +296,99 @@ func verifK18ModelAllows(m *openfgav1.AuthorizationModel, ot, rel string, u veri
 	return allowed
 }
 
-// verifK18WellFormed: the three strings of a tuple have the documented shapes and name things the model
+// VerifK18WellFormed: the three strings of a tuple have the documented shapes and name things the model
 // declares (object type, relation on it, user type, userset relation on the user type).
-func verifK18WellFormed(m *openfgav1.AuthorizationModel, obj, rel string, o, u verifK18Ent) bool {
-	if !o.ok || o.userset || o.id == "*" || !verifK18TypeDeclared(m, o.typ) {
+func VerifK18WellFormed(m *openfgav1.AuthorizationModel, rel string, o, u VerifK18Ent) bool {
+	if !o.OK || o.Userset || o.ID == "*" || !verifK18TypeDeclared(m, o.Typ) {
 		return false
 	}
-	if !verifK18RelDeclared(m, o.typ, rel) {
+	if !verifK18RelDeclared(m, o.Typ, rel) {
 		return false
 	}
-	if !u.ok || !verifK18TypeDeclared(m, u.typ) {
+	if !u.OK || !verifK18TypeDeclared(m, u.Typ) {
 		return false
 	}
-	if u.userset && (u.id == "*" || !verifK18RelDeclared(m, u.typ, u.rel)) {
+	if u.Userset && (u.ID == "*" || !verifK18RelDeclared(m, u.Typ, u.Rel)) {
 		return false
 	}
 	return true
 }
 
-// ---- the symbolic tuple ----
-
-type verifK18Tuple struct {
-	obj, rel, user string
-	hasCond        bool
-	cond           string
+// verifK18StoredShape: the shapes a stored tuple can have (what a write may have put there under some
+// earlier model): `type:id` object, `type:id` / `type:*` / `type:id#relation` user.
+func verifK18StoredShape(o, u VerifK18Ent) bool {
+	return o.OK && !o.Userset && o.ID != "*" && u.OK && !(u.Userset && u.ID == "*")
 }
 
-// verifK18SymTuple: every field is drawn from the model vocabulary (symbolic index, merged), except one
-// position chosen by "free" which is an arbitrary byte string.
-//
-// Vocabulary strings are complete field values (`type:id`, `type:id#rel`, `id`), so a merged pick is a
-// one-level choice between constants. Free positions: 1 whole object, 2 object id, 3 relation, 4 whole
-// user, 5 user type, 6 user id (object form), 7 user id (userset form), 8 userset relation, 9 condition name.
-func verifK18SymTuple(v verifK18Voc) verifK18Tuple {
-	L := vt.ParamInt("len", 4)
-	free := vt.ParamInt("free", -1) // a job may pin the free position (jobs run in parallel)
-	if free < 0 {
-		free = vt.Choose("free", 10)
-	}
-	idx := func(name string, n int) int {
-		if vt.ParamInt("fork", 0) == 1 {
-			return vt.Choose(name, n)
-		}
-		return vt.Pick(name, n)
-	}
-	var objs, users []string
-	for _, ty := range v.types {
-		for _, id := range v.ids {
-			objs = append(objs, ty+":"+id)
-		}
-	}
-	users = append(users, objs...)
-	for _, o := range objs {
-		for _, r := range v.rels {
-			users = append(users, o+"#"+r)
-		}
-	}
-	users = append(users, v.ids...)
+// ---- tuples ----
 
-	var t verifK18Tuple
-	switch free {
-	case 1:
-		t.obj = vt.String("obj", L+2)
-	case 2:
-		t.obj = v.types[vt.Choose("ot", len(v.types))] + ":" + vt.String("oid", L)
-	default:
-		t.obj = objs[idx("obj", len(objs))]
-	}
-	if free == 3 {
-		t.rel = vt.String("rel", L)
-	} else {
-		t.rel = v.rels[idx("rel", len(v.rels))]
-	}
-	switch free {
-	case 4:
-		t.user = vt.String("user", L+2)
-	case 5:
-		sfx := []string{":1", ":*", ":1#" + v.rels[0], ":*#" + v.rels[0]}
-		t.user = vt.String("ut", L) + sfx[vt.Choose("usfx", len(sfx))]
-	case 6:
-		t.user = v.types[vt.Choose("ut", len(v.types))] + ":" + vt.String("uid", L)
-	case 7:
-		t.user = v.types[vt.Choose("ut", len(v.types))] + ":" + vt.String("uid", L) + "#" + v.rels[vt.Choose("urel", len(v.rels))]
-	case 8:
-		t.user = objs[vt.Choose("uobj", len(objs))] + "#" + vt.String("urel", L)
-	default:
-		t.user = users[idx("user", len(users))]
-	}
-	if free == 9 {
-		t.hasCond = true
-		t.cond = vt.String("cond", L)
-	} else if vt.ForkBool("hascond") {
-		t.hasCond = true
-		t.cond = v.conds[idx("cond", len(v.conds))]
-	}
-	return t
+type VerifK18Tuple struct {
+	Obj, Rel, User string
+	HasCond        bool
+	Cond           string
+	Ctx            *structpb.Struct
 }
 
-func (t verifK18Tuple) key() *openfgav1.TupleKey {
-	tk := &openfgav1.TupleKey{Object: t.obj, Relation: t.rel, User: t.user}
-	if t.hasCond {
-		tk.Condition = &openfgav1.RelationshipCondition{Name: t.cond}
+func (t VerifK18Tuple) Key() *openfgav1.TupleKey {
+	tk := &openfgav1.TupleKey{Object: t.Obj, Relation: t.Rel, User: t.User}
+	if t.HasCond {
+		tk.Condition = &openfgav1.RelationshipCondition{Name: t.Cond, Context: t.Ctx}
 	}
 	return tk
 }
 
-func verifK18TypeSystem(m *openfgav1.AuthorizationModel) *typesystem.TypeSystem {
-	if vt.Symbolic() {
-		// CEL compilation of the condition expressions is outside (library code); natively it runs for real.
-		vt.Stub("(*github.com/openfga/openfga/internal/condition.EvaluableCondition).Compile",
-			func(e *condition.EvaluableCondition) error { return nil })
+func (t VerifK18Tuple) String() string {
+	s := t.Obj + "#" + t.Rel + "@" + t.User
+	if t.HasCond {
+		s += " with '" + t.Cond + "'"
 	}
-	ts, err := typesystem.NewAndValidate(context.Background(), m)
-	vt.Assert(err == nil, "family model rejected by NewAndValidate")
-	return ts
+	return s
 }
 
-// K18a: ValidateTupleForWrite accepts a tuple iff it is well-formed and the model allows it.
-func VerifK18aWrite() {
-	m := verifK18Model()
-	ts := verifK18TypeSystem(m)
-	if ts == nil {
+// VerifK18Want is the reference verdict for ValidateTupleForWrite.
+func VerifK18Want(m *openfgav1.AuthorizationModel, t VerifK18Tuple) bool {
+	o, u := VerifK18Parse(t.Obj), VerifK18Parse(t.User)
+	if vt.ParamInt("starquirk", 0) == 1 {
+		// documented deviation (see the C18 note in the spec): usersets whose id contains '*' without being
+		// the wildcard are taken out of the input space
+		vt.Assume(!(u.OK && u.Userset && u.Stars > 0 && u.ID != "*"))
+	}
+	return VerifK18WellFormed(m, t.Rel, o, u) && VerifK18ModelAllows(m, o.Typ, t.Rel, u, t.HasCond, t.Cond)
+}
+
+// verifK18Check compares both validators with the reference on one tuple (fields concrete or symbolic).
+//
+// With concrete fields (the vocabulary product) a disagreement is recorded as an event and counted in
+// `bad` instead of ending the path, so that one run lists every offending tuple; the caller asserts the
+// counters are zero.
+func verifK18Check(m *openfgav1.AuthorizationModel, ts *typesystem.TypeSystem, t VerifK18Tuple, concrete bool, bad *[4]int) {
+	tk := t.Key()
+	err := ValidateTupleForWrite(ts, tk)
+	want := VerifK18Want(m, t)
+	if concrete {
+		if err == nil && !want {
+			vt.Event("accepted but not allowed: " + t.String())
+			bad[0]++
+		}
+		if err != nil && want {
+			vt.Event("allowed but rejected: " + t.String())
+			bad[1]++
+		}
+		o, u := VerifK18Parse(t.Obj), VerifK18Parse(t.User)
+		if verifK18StoredShape(o, u) {
+			keep := FilterInvalidTuples(ts)(tk)
+			allows := VerifK18ModelAllows(m, o.Typ, t.Rel, u, t.HasCond, t.Cond)
+			if keep && !allows {
+				vt.Event("stored tuple kept but not allowed: " + t.String())
+				bad[2]++
+			}
+			if !keep && allows {
+				vt.Event("stored tuple allowed but dropped: " + t.String())
+				bad[3]++
+			}
+		}
 		return
 	}
-	t := verifK18SymTuple(verifK18Vocab(m))
-	err := ValidateTupleForWrite(ts, t.key())
-
-	o, u := verifK18Parse(t.obj), verifK18Parse(t.user)
-	want := verifK18WellFormed(m, t.obj, t.rel, o, u) && verifK18ModelAllows(m, o.typ, t.rel, u, t.hasCond, t.cond)
 	vt.Reach("validated")
 	if err == nil {
 		vt.Reach("accepted")
@@ -384,4 +398,239 @@ func VerifK18aWrite() {
 		vt.Reach("allowed")
 		vt.Assert(err == nil, "ValidateTupleForWrite rejected a tuple the model allows")
 	}
+	if vt.ParamInt("read", 1) == 1 {
+		o, u := VerifK18Parse(t.Obj), VerifK18Parse(t.User)
+		if verifK18StoredShape(o, u) {
+			keep := FilterInvalidTuples(ts)(tk)
+			allows := VerifK18ModelAllows(m, o.Typ, t.Rel, u, t.HasCond, t.Cond)
+			if keep {
+				vt.Assert(allows, "FilterInvalidTuples keeps a stored tuple the model does not allow")
+			}
+			if allows {
+				vt.Assert(keep, "FilterInvalidTuples drops a stored tuple the model allows")
+			}
+		}
+	}
+}
+
+// K18a: the complete product of the model vocabulary (objects x relations x users x conditions), every
+// field concrete: the engine interprets the validators and the reference on each tuple.
+func VerifK18aVocabulary() {
+	m := verifK18Model()
+	ts := VerifK18TypeSystem(m)
+	if ts == nil {
+		return
+	}
+	v := VerifK18Vocab(m)
+	n := 0
+	var bad [4]int
+	for _, obj := range v.Objs {
+		for _, rel := range v.Rels {
+			for _, user := range v.Users {
+				verifK18Check(m, ts, VerifK18Tuple{Obj: obj, Rel: rel, User: user}, true, &bad)
+				for _, c := range v.Conds {
+					verifK18Check(m, ts, VerifK18Tuple{Obj: obj, Rel: rel, User: user, HasCond: true, Cond: c}, true, &bad)
+				}
+				n++
+			}
+		}
+	}
+	vt.Reach("product-done")
+	vt.Assert(n == len(v.Objs)*len(v.Rels)*len(v.Users), "vocabulary product not covered")
+	vt.Assert(bad[0] == 0, "ValidateTupleForWrite accepted a tuple the model does not allow")
+	vt.Assert(bad[1] == 0, "ValidateTupleForWrite rejected a tuple the model allows")
+	vt.Assert(bad[2] == 0, "FilterInvalidTuples keeps a stored tuple the model does not allow")
+	vt.Assert(bad[3] == 0, "FilterInvalidTuples drops a stored tuple the model allows")
+}
+
+// ---- K18b: one position of the tuple is an arbitrary byte string ----
+
+// verifK18Sym: a string of exactly n bytes with symbolic content (the caller forks on n, so the
+// offsets of whatever follows the string stay concrete).
+func verifK18Sym(name string, n int) string {
+	var s string
+	if vt.ParamInt("ascii", 0) == 1 {
+		s = vt.ASCII(name, n)
+	} else {
+		s = vt.String(name, n)
+	}
+	vt.Assume(len(s) == n)
+	return s[:n]
+}
+
+// verifK18Base: a tuple the model allows, one per (type, relation, type restriction); relations without
+// restrictions contribute a tuple with a user of the first type.
+type verifK18Base struct {
+	ot, rel, ut, uid, urel, cond string
+	computed                     bool // relation without type restrictions: no tuple is allowed
+}
+
+func (b verifK18Base) user(ut, uid, urel string) string {
+	if urel != "" {
+		return ut + ":" + uid + "#" + urel
+	}
+	return ut + ":" + uid
+}
+
+func verifK18Bases(m *openfgav1.AuthorizationModel) []verifK18Base {
+	var bs []verifK18Base
+	for _, td := range m.GetTypeDefinitions() {
+		for _, r := range verifK18SortedRels(td) {
+			refs := td.GetMetadata().GetRelations()[r].GetDirectlyRelatedUserTypes()
+			if len(refs) == 0 {
+				bs = append(bs, verifK18Base{ot: td.GetType(), rel: r, ut: m.GetTypeDefinitions()[0].GetType(), uid: "1", computed: true})
+			}
+			for _, ref := range refs {
+				b := verifK18Base{ot: td.GetType(), rel: r, ut: ref.GetType(), uid: "1", urel: ref.GetRelation(), cond: ref.GetCondition()}
+				if ref.GetWildcard() != nil {
+					b.uid = "*"
+				}
+				bs = append(bs, b)
+			}
+		}
+	}
+	return bs
+}
+
+// Free positions: 0 none (the base tuples themselves), 1 whole object, 2 object id, 3 relation, 4 whole user,
+// 5 user type, 6 user id, 7 userset relation (appended to the base user's object), 8 condition name,
+// 9 object type. The other fields come from a base tuple (fork) and, with conds=1, the condition ranges
+// over none / every vocabulary condition (fork).
+func VerifK18bFree() {
+	m := verifK18Model()
+	ts := VerifK18TypeSystem(m)
+	if ts == nil {
+		return
+	}
+	v := VerifK18Vocab(m)
+	bases := verifK18Bases(m)
+	L := vt.ParamInt("len", 3)
+	free := vt.ParamInt("free", -1) // a job may pin the free position (jobs run in parallel)
+	if free < 0 {
+		free = vt.Choose("free", 10)
+	}
+	bi := vt.ParamInt("base", -1)
+	if bi < 0 {
+		bi = vt.Choose("base", len(bases))
+	}
+	b := bases[bi]
+	max := L
+	if free == 1 || free == 4 {
+		max = L + 2
+	}
+	n := 0
+	if free != 0 {
+		n = vt.Choose("n", max+1)
+	}
+	t := VerifK18Tuple{Obj: b.ot + ":1", Rel: b.rel, User: b.user(b.ut, b.uid, b.urel), HasCond: b.cond != "", Cond: b.cond}
+	if free != 8 && vt.ParamInt("conds", 0) == 1 {
+		cv := vt.Choose("cv", len(v.Conds)+1)
+		t.HasCond = cv > 0
+		t.Cond = ""
+		if cv > 0 {
+			t.Cond = v.Conds[cv-1]
+		}
+	}
+	switch free {
+	case 0:
+		if vt.ParamInt("conds", 0) == 0 && !b.computed {
+			vt.Assert(VerifK18Want(m, t), "reference rejects a tuple built from a type restriction")
+		}
+	case 1:
+		t.Obj = verifK18Sym("s", n)
+	case 2:
+		t.Obj = b.ot + ":" + verifK18Sym("s", n)
+	case 3:
+		t.Rel = verifK18Sym("s", n)
+	case 4:
+		t.User = verifK18Sym("s", n)
+	case 5:
+		t.User = b.user(verifK18Sym("s", n), b.uid, b.urel)
+	case 6:
+		t.User = b.user(b.ut, verifK18Sym("s", n), b.urel)
+	case 7:
+		t.User = b.ut + ":" + b.uid + "#" + verifK18Sym("s", n)
+	case 8:
+		t.HasCond = true
+		t.Cond = verifK18Sym("s", n)
+	default:
+		t.Obj = verifK18Sym("s", n) + ":1"
+	}
+	verifK18Check(m, ts, t, false, nil)
+}
+
+// ---- K18c: condition context of a conditioned tuple ----
+//
+// Context fields: the declared parameter of the tuple's condition (x1/x2: int) present with a fitting
+// value / present with a value of the wrong kind / absent, and an undeclared key present / absent; plus a
+// string value containing a control character. Reference (validation.go doc + property text): a context
+// fits iff every key is a declared parameter whose value converts to the declared type, and no key or
+// string value contains control characters.
+func VerifK18cContext() {
+	m := verifK18Model()
+	ts := VerifK18TypeSystem(m)
+	if ts == nil {
+		return
+	}
+	if vt.Symbolic() {
+		// the parameter-type registry is filled by initialisers that reference CEL types (not interpretable):
+		// declared parameters of the family are ints; the int converter accepts integral numbers, rejects bools
+		vt.Stub("github.com/openfga/openfga/internal/condition/types.DecodeParameterType",
+			func(r *openfgav1.ConditionParamTypeRef) (*types.ParameterType, error) {
+				if r.GetTypeName() != openfgav1.ConditionParamTypeRef_TYPE_NAME_INT {
+					return nil, errors.New("unknown condition parameter type")
+				}
+				return &types.ParameterType{}, nil
+			})
+		vt.Stub("(github.com/openfga/openfga/internal/condition/types.ParameterType).ConvertValue",
+			func(pt types.ParameterType, value any) (any, error) {
+				if f, ok := value.(float64); ok {
+					return int64(f), nil
+				}
+				return nil, errors.New("expected an int value")
+			})
+	}
+	var bases []verifK18Base
+	for _, b := range verifK18Bases(m) {
+		if b.cond != "" {
+			bases = append(bases, b)
+		}
+	}
+	if len(bases) == 0 {
+		return
+	}
+	b := bases[vt.Choose("base", len(bases))]
+	param := ""
+	for p := range m.GetConditions()[b.cond].GetParameters() {
+		param = p
+	}
+	declared := vt.Choose("declared", 3) // 0 absent, 1 integral number, 2 bool (wrong kind)
+	extra := vt.Choose("extra", 4)       // 0 absent, 1 undeclared key, 2 undeclared key with control char, 3 declared-looking key of another condition
+	nilCtx := declared == 0 && extra == 0 && vt.ForkBool("nilctx")
+	fields := map[string]*structpb.Value{}
+	switch declared {
+	case 1:
+		fields[param] = structpb.NewNumberValue(5)
+	case 2:
+		fields[param] = structpb.NewBoolValue(true)
+	}
+	switch extra {
+	case 1:
+		fields["zz"] = structpb.NewNumberValue(1)
+	case 2:
+		fields["z\x01"] = structpb.NewNumberValue(1)
+	case 3:
+		fields["x9"] = structpb.NewStringValue("a\x7fb")
+	}
+	t := VerifK18Tuple{Obj: b.ot + ":1", Rel: b.rel, User: b.user(b.ut, b.uid, b.urel), HasCond: true, Cond: b.cond}
+	if !nilCtx {
+		t.Ctx = &structpb.Struct{Fields: fields}
+	}
+	err := ValidateTupleForWrite(ts, t.Key())
+	want := declared != 2 && extra == 0
+	vt.Reach("validated")
+	if want {
+		vt.Reach("fits")
+	}
+	vt.Assert((err == nil) == want, "condition context: validator and reference disagree")
 }
